@@ -371,7 +371,7 @@ theorem objective_attained_EO (flip : Bool) (obj : Metric) (N : Nat) (groups : L
   obtain ⟨hb, _, hlen, hpar⟩ := C04.parity_EO flip obj N groups force fit yBest hN hfit
   obtain ⟨_, _, _, _, _, _, _, _, _, _, _, hobjv, _⟩ := fitEO_some hfit
   rw [hobjv]
-  unfold objEO
+  rw [objEO_eq]
   rw [overallCM_eq (gridVal N fit.iBest) yBest groups fit.rules hlen]
   intro j hj hj'
   have hg := hb groups[j] (List.getElem_mem hj)
@@ -446,7 +446,7 @@ theorem optimal_EO_ops (flip : Bool) (obj : Metric) (hobj : obj ∈ objectivesEO
     have hja : j < ms.length := by omega
     simp only [List.getElem_map]
     exact ⟨hg.1, hg.2, (hms j hj hja).2.1, (hms j hj hja).2.2⟩
-  rw [hcm]
+  rw [hcm, ← objEO_eq]
   refine (optimal_EO flip obj hobj N groups fit yBest hN hfit i hi y ?_).2
   intro j hj
   have hja : j < ms.length := by omega
